@@ -195,7 +195,10 @@ class CirculationPump(BranchWOInternalsComponent):
         from_nodes = get_from_nodes_corrected(branch_pit[f:t])
         t_from = node_pit[from_nodes, TINIT]
         tout = branch_pit[f:t, TOUTINIT]
-        res_table['deltat_k'].values[:] = t_from - tout
+        # only circulation pumps that were part of the calculation report results
+        lookup_name = "hydraulics" if mode == "hydraulics" else "heat_transfer"
+        connected = get_lookup(net, "branch", "active_" + lookup_name)[f:t]
+        res_table['deltat_k'].values[connected] = (t_from - tout)[connected]
 
         fluid = get_fluid(net)
 
@@ -203,4 +206,4 @@ class CirculationPump(BranchWOInternalsComponent):
         cp_i1 = fluid.get_heat_capacity(tout)
 
         mass = branch_pit[f:t, MDOTINIT]
-        res_table['qext_w'].values[:] = mass * (cp_i1 * tout - cp_i * t_from)
+        res_table['qext_w'].values[connected] = (mass * (cp_i1 * tout - cp_i * t_from))[connected]
